@@ -94,8 +94,33 @@ def canon_nodes(g):
     return [[str(k), canon_attrs(g.nodes[k])] for k in g.nodes]
 
 
+ATOM_COLS = ('atype', 'resname', 'resid', 'charge_group')
+
+
+def atom_cols(b):
+    """the declared columns of the atoms of a block as loaded"""
+    return [[repr_j(b.nodes[n][k]) if k in b.nodes[n] else '-' for k in ATOM_COLS] for n in b.nodes]
+
+
+def spell_int(rng, n):
+    """one of the spellings int() accepts for n >= 0"""
+    k = rng.random()
+    if k < 0.75:
+        return str(n)
+    if k < 0.82:
+        return '+%d' % n
+    if k < 0.89:
+        return '0%d' % n
+    if k < 0.94:
+        return '0_%d' % n if n < 10 else '%d_%d' % (n // 10, n % 10)
+    if k < 0.97:
+        return '%d\x0c' % n           # a form feed is not a separator for _tokenize; int() skips it
+    return '-0' if n == 0 else '00%d' % n
+
+
 def dump_ff(ff):
-    blocks = [[k, [str(n) for n in b.nodes], canon_inters(b.interactions)] for k, b in ff.blocks.items()]
+    blocks = [[k, [str(n) for n in b.nodes], canon_inters(b.interactions), atom_cols(b), b.nrexcl]
+              for k, b in ff.blocks.items()]
     links = [[canon_nodes(l), canon_inters(l.interactions), canon_inters(l.removed_interactions)] for l in ff.links]
     mods = [[k, canon_nodes(m), canon_inters(m.interactions)] for k, m in ff.modifications.items()]
     return [blocks, links, mods]
@@ -431,6 +456,53 @@ def run_subst():
 
 
 # ----------------------------------------------------------------------------------------------
+# 5b. int(): the spellings of atom indices, resids, charge groups, nrexcl, weights
+# ----------------------------------------------------------------------------------------------
+_INT_RE = re.compile(r'^[ \t\n\r\x0b\x0c]*[+-]?[0-9]+(_[0-9]+)*[ \t\n\r\x0b\x0c]*\Z')
+
+
+def run_pyint():
+    """the model's `pyInt?` against CPython's int(str) (what the readers call on index / resid / count
+    tokens); the oracle states the grammar as a regular expression; non-ASCII input (which int() also
+    accepts: any Unicode decimal digit, Unicode blanks) is outside the model and only recorded"""
+    rng = chk.rng('pyint')
+    cases = ['1', '+1', '-1', '007', '1_0', '1_000_000', '_1', '1_', '1__0', '+_1', '-', '+', '', ' ', ' 7 ', '\t7\n', '7\x0b',
+             '\x1f7\x1c', '+ 7', '7 7', '0x10', '1e3', '1.0', '--1', '+-1', '-+1', '1-', '0', '-0', '+0', '00', '0_0', '1_2_3',
+             '١', '٣', '1٣', '²', '７', '1\u2009', '\xa07', '1\x85']
+    alpha = ['0', '1', '9', '_', '+', '-', ' ', '\t', '\x1f', 'x', '.']
+    for _ in range(20000 if chk.thorough else 2500):
+        k = rng.random()
+        if k < 0.5:
+            cases.append(''.join(rng.choice(alpha) for _ in range(rng.randint(0, 6))))
+        else:
+            body = '_'.join(''.join(rng.choice('0123456789') for _ in range(rng.randint(1, 3))) for _ in range(rng.randint(1, 3)))
+            t = rng.choice(['', ' ', '\t']) + rng.choice(['', '', '+', '-']) + body + rng.choice(['', ' ', '\x0c'])
+            if rng.random() < 0.25 and t:
+                j = rng.randrange(len(t))
+                t = t[:j] + rng.choice(['_', '+', ' ', '']) + t[j + (rng.random() < 0.5):]
+            cases.append(t)
+    ascii_cases = [c for c in cases if c.isascii()]
+    models = dict(zip(ascii_cases, ask([line('pyint', c) for c in ascii_cases])))
+    for i, c in enumerate(cases):
+        try:
+            im = 'ok %d' % int(c)
+        except ValueError:
+            im = 'error'
+        if not c.isascii():
+            chk.count('pyint_nonascii_excluded_' + im.split()[0])
+            chk.case('pyint-%d' % i, line('pyint', c), im, None, [], False)
+            continue
+        errs = []
+        ok = bool(_INT_RE.match(c))
+        if ok != (im != 'error'):
+            errs.append('int(%r) -> %s, the grammar [ws][+-]digits(_digits)*[ws] says %s' % (c, im, 'accept' if ok else 'reject'))
+        elif ok and int(c) != int(c.strip(' \t\n\r\x0b\x0c').replace('_', '').lstrip('+-') or '0') * (-1 if '-' in c else 1):
+            errs.append('int(%r) has the wrong value' % c)
+        chk.count('pyint_' + im.split()[0])
+        chk.case('pyint-%d' % i, line('pyint', c), im, models[c], errs, '_' in c or '+' in c or c != c.strip())
+
+
+# ----------------------------------------------------------------------------------------------
 # 6. whole .ff files: generator with AST
 # ----------------------------------------------------------------------------------------------
 NATOMS = dict(TABLES['natoms'])
@@ -546,11 +618,17 @@ class Gen:
         self.serial += 1
         name = r.choice(['ALA', 'GLY', 'LYS', 'B%d' % self.serial, 'B%d' % self.serial])
         self.header('moleculetype')
-        self.emit('%s %d' % (name, r.randint(0, 3)), blockname=name)
+        nrexcl = r.randint(0, 3)
+        # `name, nrexcl = line.split()`: no form feed here (str.split would cut there)
+        self.emit('%s %s' % (name, spell_int(r, nrexcl).replace('\x0c', '')), blockname=name)
         atoms = r.sample(['BB', 'SC1', 'SC2', 'SC3', 'C1', 'N', 'CA', 'O1'], r.randint(2, 5))
         self.header('atoms')
+        acols = []
         for i, a in enumerate(atoms):
-            cols = [str(i + 1), r.choice(['P5', 'C1', 'Qd']), str(r.randint(1, 3)), name, a, str(i + 1)]
+            atype, resid, cg = r.choice(['P5', 'C1', 'Qd']), r.randint(1, 3), r.choice([i + 1, i + 1, 10 + i])
+            acols.append([repr_j(atype), repr_j(name), repr_j(resid), repr_j(cg)])
+            cols = [str(i + 1), atype, spell_int(r, resid), name, a, spell_int(r, cg)]
+            chk.count('ff_int_spelled_' + ('plain' if cols[2] == str(resid) and cols[5] == str(cg) else 'fancy'))
             if r.random() < 0.7:
                 cols.append(r.choice(['0', '1.0', '-1', '0.5']))
                 if r.random() < 0.4:
@@ -571,7 +649,8 @@ class Gen:
                     self.meta_line(secmeta, sect)
                 k = n if n is not None else r.randint(1, 3)
                 chosen = [r.choice(atoms) for _ in range(k)]
-                refs = [str(atoms.index(a) + 1) if r.random() < 0.4 else a for a in chosen]
+                refs = [(r.choice(['%d', '%d', '%d', '0%d', '00%d']) % (atoms.index(a) + 1)) if r.random() < 0.4 else a
+                        for a in chosen]
                 written, expected = self.params(sect)
                 delim = ['--'] if (n is None or r.random() < 0.3) else []
                 mtoks, mexp = self.own_meta(secmeta, sect)
@@ -586,7 +665,7 @@ class Gen:
             self.header('edges')
             a, b = r.sample(atoms, 2)
             self.emit('%s %s' % (a, b))
-        self.blocks[name] = [name, atoms, inters]
+        self.blocks[name] = [name, atoms, inters, acols, nrexcl]
         self.kinds.append('block')
         self.has_ctx = True
 
@@ -739,7 +818,8 @@ class Gen:
                     delim = ['--'] if (n is None or r.random() < 0.4) else []
                     mtoks, mexp = self.own_meta(secmeta, sect)
                     self.emit(' '.join(texts + delim + written + mtoks),
-                              linkinter=sect, natoms=n, nref=kk, delim=bool(delim))
+                              linkinter=sect, natoms=n, nref=kk, delim=bool(delim),
+                              first_key=None if delete else keys[0], first_base=chosen[0][0])
                     out_sect = 'impropers' if (sect == 'dihedrals' and not delete and expected
                                                and expected[0] == '2') else sect
                     (removed if delete else inters).append([out_sect, keys, expected, canon_attrs(mexp)])
@@ -780,14 +860,15 @@ class Gen:
     def expected(self):
         def srt(inters):
             return sorted(inters, key=lambda x: x[0])     # stable: file order kept inside a section
-        blocks = [[b[0], b[1], srt(b[2])] for b in self.blocks.values()]
+        blocks = [[b[0], b[1], srt(b[2]), b[3], b[4]] for b in self.blocks.values()]
         links = [[l[0], srt(l[1]), srt(l[2])] for l in self.links]
         mods = [[m[0], m[1], srt(m[2])] for m in self.mods.values()]
         return [blocks, links, mods]
 
 
 FAULTS = ['unknown_section', 'undefined_atom', 'duplicate_atom', 'unbalanced_braces', 'order_conflict', 'arity',
-          'index_zero', 'effector']
+          'index_zero', 'effector', 'bad_int', 'attr_conflict']
+BAD_INTS = ['1_', '_1', '1__0', '+', '-', '1.0', 'x', '0x1', '+-1', '1e2', '1_x', '--1']
 
 
 def inject(gen, fault, rng):
@@ -827,6 +908,37 @@ def inject(gen, fault, rng):
         if '{' in t.split(' ')[-1]:
             return None
         return [t for t, _ in L]
+    if fault == 'bad_int':
+        # a token that int() does not accept where a resid / charge group / nrexcl is read, or a reference that
+        # looks like a number but is not all digits (it is then looked up as an atom NAME, which does not exist)
+        c = idx(lambda t, tag: 'blockatom' in tag or 'blockname' in tag or ('blockinter' in tag and tag['nref'] >= 1))
+        if not c:
+            return None
+        i = rng.choice(c)
+        t, tag = L[i]
+        toks = t.split(' ')
+        if 'blockname' in tag:
+            toks[1] = rng.choice(BAD_INTS)
+        elif 'blockatom' in tag:
+            toks[rng.choice([2, 5])] = rng.choice(BAD_INTS)
+        else:
+            toks[rng.randrange(tag['nref'])] = rng.choice(['1_0', '+1', '1_', '-1', '1.0', '0x1'])
+        L[i] = (' '.join(toks), tag)
+        return [t for t, _ in L]
+    if fault == 'attr_conflict':
+        # a link interaction mentions an atom again with a different value for an attribute it already has
+        c = idx(lambda t, tag: 'linkinter' in tag and tag.get('first_key') is not None)
+        if not c:
+            return None
+        i = rng.choice(c)
+        t, tag = L[i]
+        key, base = tag['first_key'], tag['first_base']
+        sect = tag['linkinter']
+        n = tag['natoms'] if tag['natoms'] is not None else 2
+        other = ['%s {"atomname": "%s", "resname": "QQQ", "zz_attr": 1}' % (key, base)] + ['ZZ%d' % q for q in range(n - 1)]
+        again = ['%s {"zz_attr": 2}' % key] + ['ZZ%d' % q for q in range(n - 1)]
+        new = [(' '.join(other + ['--', '1']), {}), (' '.join(again + ['--', '1']), {})]
+        return [t for t, _ in L[:i + 1] + new + L[i + 1:]]
     if fault == 'index_zero':
         # known finding F-C13-4: the (1-based) atom index 0 in a block interaction
         c = idx(lambda t, tag: 'blockinter' in tag and tag['nref'] >= 1)
@@ -1050,7 +1162,8 @@ def run_ff():
                 errs += check_once_in_order(ls, ff)
                 if len(ff.links) != extra[0]:
                     errs.append('%d links loaded, %d declared' % (len(ff.links), extra[0]))
-                if extra[1] is not None and got != extra[1]:
+                # the corpus dumps were recorded without the atom columns / nrexcl of blocks
+                if extra[1] is not None and [[b[:3] for b in got[0]], got[1], got[2]] != extra[1]:
                     errs.append('loaded %s, declared %s' % (clip(got, 400), clip(extra[1], 400)))
         elif exp == 'observation':
             chk.count('observation_' + ('rejected' if ff is None else 'loaded'))
@@ -1196,10 +1309,14 @@ def gen_itp(rng):
         lines.append('#define FLEXIBLE')
     for b in range(rng.randint(1, 4)):
         name = rng.choice(['MOL%d' % b, 'MOL%d' % b, 'PROT'])
-        lines += ['[ moleculetype ]', '%s %d' % (name, rng.randint(1, 3)), '[ atoms ]']
+        nrexcl = rng.randint(1, 3)
+        lines += ['[ moleculetype ]', '%s %s' % (name, spell_int(rng, nrexcl).replace('\x0c', '')), '[ atoms ]']
         n = rng.randint(2, 6)
+        acols = []
         for i in range(n):
-            cols = [str(i + 1), 'P5', '1', name, rng.choice(['BB', 'SC1', 'SC2']), str(i + 1)]
+            resid = rng.randint(1, 2)
+            cols = [spell_int(rng, i + 1), 'P5', spell_int(rng, resid), name, rng.choice(['BB', 'SC1', 'SC2']), spell_int(rng, i + 1)]
+            acols.append([repr_j('P5'), repr_j(name), repr_j(resid), repr_j(i + 1)])
             if rng.random() < 0.6:
                 cols.append('0.0')
             lines.append(' '.join(cols) + rng.choice(['', ' ; c']))
@@ -1233,7 +1350,7 @@ def gen_itp(rng):
                     toks = atoms + params
                 lines.append(' '.join(toks))
                 inters.append([sect, [str(int(a) - 1) for a in atoms], params, list(meta) if meta else []])
-        blocks[name] = [name, [str(i) for i in range(n)], sorted(inters, key=lambda x: x[0])]
+        blocks[name] = [name, [str(i) for i in range(n)], sorted(inters, key=lambda x: x[0]), acols, nrexcl]
     if meta is not None:
         lines.append('#endif')
     return lines, list(blocks.values())
@@ -1298,7 +1415,8 @@ def run_itp():
         errs = []
         try:
             read_itp(ls, ff)
-            got = [[k, [str(n) for n in b.nodes], canon_inters_meta(b.interactions)] for k, b in ff.blocks.items()]
+            got = [[k, [str(n) for n in b.nodes], canon_inters_meta(b.interactions), atom_cols(b), b.nrexcl]
+                   for k, b in ff.blocks.items()]
             im = enc(got)
         except Exception as e:
             got, im = None, 'error'
@@ -1624,6 +1742,7 @@ run_prefix()
 run_atoms()
 run_weights()
 run_subst()
+run_pyint()
 run_ffdisp()
 run_ff()
 run_itp()
